@@ -1,5 +1,5 @@
 (* C03  Block reads and range iteration follow the flat address-space model.  Statements only. *)
-From Ufw Require Import Base.Bits Model.RegTable Proof.RegLemmas.
+From Ufw Require Import Base.Bits Model.RegTable Proof.RegLemmas Proof.RegInitLemmas Proof.RegMemory.
 Local Open Scope N_scope.
 
 Theorem C03_zero_length : forall t addr, t_init t = true -> block_read t addr 0 = ((ASuccess, 0), []).
@@ -37,3 +37,21 @@ Theorem C03_foreach_stops : forall es i addr off z zs e r, es = e :: r -> overla
   if (z <? 0)%Z then ((AFailure, e_addr e), [i]) else ((ASuccess, 0), [i]).
 Proof. exact foreach_stops. Qed.
 Print Assumptions C03_foreach_stops.
+
+(* the flat address-space model, word by word and across area borders (tables whose areas are ordered, disjoint and full):
+   a successful block read delivers, for every address of the request, the word of the area that maps it - zero for an area that
+   is not readable *)
+Theorem C03_read_words : forall t addr n ws, areas_wf (t_areas t) -> n <> 0 ->
+  block_read t addr n = ((ASuccess, 0), ws) ->
+  N.of_nat (length ws) = n /\ forall i, i < n -> word_seen t (addr + i) = nth_error ws (N.to_nat i).
+Proof. exact block_read_words. Qed.
+Print Assumptions C03_read_words.
+
+(* and it reads back what a block write stored *)
+Theorem C03_write_then_read : forall t addr n buf t' ws, areas_wf (t_areas t) -> n <> 0 -> n <= N.of_nat (length buf) ->
+  block_write t addr n buf = ((ASuccess, 0), t') ->
+  block_read t' addr n = ((ASuccess, 0), ws) ->
+  (forall x, addr <= x < addr + n -> forall j a, find_area (t_areas t) x 0 = Some (j, a) -> area_is_readable a = true) ->
+  ws = firstn (N.to_nat n) buf.
+Proof. exact block_write_then_read. Qed.
+Print Assumptions C03_write_then_read.
